@@ -380,7 +380,7 @@ impl Property for C17 {
         case_strategy(tier.pick(40, 120))
     }
     fn budget(&self, tier: Tier) -> Budget {
-        Budget::new(tier.pick(300_000, 6_000_000), tier.pick(8, 16)).min_nontrivial(tier.pick(20_000, 300_000))
+        Budget::new(tier.pick(250_000, 6_000_000), tier.pick(8, 16)).min_nontrivial(tier.pick(20_000, 300_000))
     }
     fn rule(&self) -> String {
         "history of 1..=40 (thorough 120) register/grow/try_grow/shrink/try_shrink/resize/try_resize/split/take/new_empty/free/drop/reset_peak ops over \
